@@ -13,7 +13,8 @@ def judge(job, res):
     if r1["rc"] != 0 or r1["exc"]:
         st["run_failed"] += 1; return v, st, nt
     for e in r1["trace"]:
-        if e["k"] != "pipe" or e["before"] is None or e["after"] is None or e["before"] == e["after"]: continue
+        if e["k"] == "dep_write" and not str(e["path"]).endswith(".py"): continue
+        if e["k"] not in ("pipe", "dep_write") or e["before"] is None or e["after"] is None or e["before"] == e["after"]: continue
         name = os.path.basename(e["path"]); lab = tuple(job["labels"].get(name, ()))
         try: bt, at = O.decode(unb(e["before"])), O.decode(unb(e["after"]))
         except UnicodeDecodeError: st["undecodable"] += 1; continue
